@@ -76,7 +76,8 @@ Theorem C13_copy_keeps_originals : forall cfg st o t ob, get st t = Some ob ->
 Proof. exact copy_keeps_originals. Qed.
 
 (* REFUTED on the pinned code: the full statement (no guard) fails after a failing walk call ... *)
-Theorem C13_coherent_refuted_failing_call : ~ coherent_everywhere cfg_pinned.
+Theorem C13_coherent_refuted_failing_call :
+  wrapper_cleanup = false -> ~ coherent_everywhere (mkConfig cls0 pri0 wrapper_cleanup).
 Proof. exact refuted_failing_call. Qed.
 
 (* ... and, independently of the wrapper, after a modification below a still-frozen ancestor *)
